@@ -28,10 +28,16 @@ type RReq struct {
 	Out int64
 }
 
+type RTouch struct{ n int64 }
+
+func (t *RTouch) Touch() int64 { return 1 }
+
+// every rule: a local object obtained from an injected constructor, then a conc block mixing calls on that LOCAL
+// object (method call resolved through the rule's local-variable store) with assignments to other locals
 func raceRules(ver int) string {
 	s := ""
 	for i, n := range []string{"pa", "pb", "pc", "pd"} {
-		s += fmt.Sprintf("rule \"%s\" \"v%d\" salience %d begin\n  loc = Req.Id\n  conc {\n    x = loc + 1\n    y = loc + 2\n    z = Req.Id\n  }\n  return %d + x + y\nend\n", n, ver, 9-2*i, ver*1000)
+		s += fmt.Sprintf("rule \"%s\" \"v%d\" salience %d begin\n  loc = Req.Id\n  obj = Mk()\n  conc {\n    x = loc + 1\n    obj.Touch()\n    y = loc + 2\n    obj.Touch()\n    z = Req.Id\n    w = 3\n  }\n  return %d + x + y\nend\n", n, ver, 9-2*i, ver*1000)
 	}
 	return s
 }
@@ -52,7 +58,8 @@ func init() {
 		stop := make(chan struct{})
 		var wg sync.WaitGroup
 		// (1) a pool: requests through the wrapper families, concurrent with management calls
-		gp, err := engine.NewGenginePool(2, 4, 1, raceRules(1), map[string]interface{}{})
+		mk := func() *RTouch { return &RTouch{} }
+		gp, err := engine.NewGenginePool(2, 4, 1, raceRules(1), map[string]interface{}{"Mk": mk})
 		if err != nil {
 			return nil, err
 		}
@@ -142,6 +149,7 @@ func init() {
 					}
 					dc := context.NewDataContext()
 					dc.Add("Req", &RReq{Id: int64(i)})
+					dc.Add("Mk", mk)
 					rb := builder.NewRuleBuilder(dc)
 					rb.Kc = master.Kc
 					g := engine.NewGengine()
